@@ -152,6 +152,7 @@ type worker struct {
 	curSoft   time.Duration
 
 	stepCancels map[string]int
+	sampled     map[string]bool
 }
 
 const stepCancelsForFast = 3
@@ -333,6 +334,62 @@ const outLimit = 4
 
 var profile = os.Getenv("VERIF_C13_PROFILE") != ""
 
+// cliState is the interpreter's global state (options stack etc.) exactly as the
+// command line entry point leaves it for `fq -n EXPR`: obtained by running the real
+// _main once. A bare Interp.Eval has no options at all and every display function
+// would fail early with "invalid bits format".
+var (
+	cliStateOnce sync.Once
+	cliStateJSON []byte
+	cliStateErr  string
+)
+
+func cliState() any {
+	cliStateOnce.Do(func() {
+		res := fqrun.Run(fqrun.Opts{Args: []string{"-n", "-r", "_global_state | tojson"}, StdinIsTerminal: true})
+		if res.Panic != nil || res.Exit != 0 {
+			cliStateErr = res.String()
+			return
+		}
+		cliStateJSON = []byte(strings.TrimSpace(string(res.Stdout)))
+	})
+	if cliStateJSON == nil {
+		return nil
+	}
+	// a fresh copy for every evaluation (fq may keep references)
+	dec := json.NewDecoder(strings.NewReader(string(cliStateJSON)))
+	dec.UseNumber()
+	var v any
+	if err := dec.Decode(&v); err != nil {
+		cliStateErr = err.Error()
+		return nil
+	}
+	return fixNumbers(v)
+}
+
+// fixNumbers turns json.Number into the int/float64 gojq expects.
+func fixNumbers(v any) any {
+	switch x := v.(type) {
+	case json.Number:
+		if i, err := strconv.Atoi(string(x)); err == nil {
+			return i
+		}
+		f, _ := x.Float64()
+		return f
+	case []any:
+		for i := range x {
+			x[i] = fixNumbers(x[i])
+		}
+		return x
+	case map[string]any:
+		for k := range x {
+			x[k] = fixNumbers(x[k])
+		}
+		return x
+	}
+	return v
+}
+
 // driver: one program per function/arity, data driven over the tuples in .cs
 // (indices into the pool). Each case yields exactly one output: the array of the
 // jq types of the first outLimit results, with "E" appended when the function
@@ -340,7 +397,7 @@ var profile = os.Getenv("VERIF_C13_PROFILE") != ""
 // case so that a case means the same thing alone as in the batch.
 func driver(f *fnInfo, thorough bool) string {
 	var sb strings.Builder
-	sb.WriteString(". as {o: $o, cs: $cs} | ")
+	sb.WriteString(". as {g: $g0, o: $o, cs: $cs} | _global_state($g0) as $_ | ")
 	sb.WriteString(poolPrelude())
 	sb.WriteString(" | ([")
 	for i, it := range basePool(thorough) {
@@ -349,7 +406,7 @@ func driver(f *fnInfo, thorough bool) string {
 		}
 		sb.WriteString(it.Expr)
 	}
-	sb.WriteString("] + $o) as $p | _global_state as $g0 | $cs[] as $c | _global_state($g0) as $_ | $p[$c[0]] | [limit(")
+	sb.WriteString("] + $o) as $p | $cs[] as $c | _global_state($g0) as $_ | $p[$c[0]] | [limit(")
 	sb.WriteString(strconv.Itoa(outLimit))
 	sb.WriteString("; try (")
 	sb.WriteString(callExpr(f, func(i int) string { return fmt.Sprintf("$p[$c[%d]]", i+1) }))
@@ -411,9 +468,9 @@ func standalone(expr string, timeout time.Duration) obs {
 	ctx, cancel := context.WithTimeout(context.Background(), timeout)
 	defer cancel()
 	s.Ctx = ctx
-	outs, err := s.Eval(nil, "["+"limit("+strconv.Itoa(outLimit)+"; "+expr+" | type)]")
+	outs, err := s.Eval(cliState(), "_global_state(.) as $_ | null | ["+"limit("+strconv.Itoa(outLimit)+"; "+expr+" | type)]")
 	if pe, ok := fqrun.IsPanic(err); ok {
-		return obs{Kind: "panic", Text: pe.Error(), Site: core.PanicSite(pe.Stack), Stack: pe.Stack}
+		return obs{Kind: "panic", Text: pe.Error(), Site: panicSite(pe.Stack), Stack: pe.Stack}
 	}
 	defer s.Close()
 	if err != nil {
@@ -489,14 +546,14 @@ func (w *worker) runChunk(c *chunk) {
 			return
 		}
 		ctx, cancel := context.WithCancel(context.Background())
-		input := map[string]any{"o": c.pool.optVals, "cs": cs[start:]}
+		input := map[string]any{"g": cliState(), "o": c.pool.optVals, "cs": cs[start:]}
 		w.evalsOnSession++
 		var it gojq.Iter
 		pv, stack := core.Protect(func() { it, err = s.I.Eval(ctx, input, c.prog, interp.EvalOpts{}) })
 		if pv != nil {
 			cancel()
 			w.mu.Lock()
-			t.Viol = append(t.Viol, tviol{"panic:compile:" + f.Key.String() + ":" + core.PanicSite(stack),
+			t.Viol = append(t.Viol, tviol{"panic:compile:" + f.Key.String() + ":" + panicSite(stack),
 				"compiling a call of " + f.Key.String() + " panicked: " + core.PanicString(pv), mkCase(f, c.pool, tuples[start])})
 			w.mu.Unlock()
 			w.dropSession()
@@ -588,8 +645,18 @@ func (w *worker) onResult(c *chunk, tp []int, v any) {
 		}
 	}
 	sh := strings.Join(shape, ",")
-	if len(shape) > 0 && shape[0] != "E" {
-		// non-trivial: the function accepted the tuple and produced a value
+	raised := len(shape) > 0 && shape[len(shape)-1] == "E"
+	switch {
+	case len(shape) == 0:
+		t.Counts["cases_empty"]++
+	case shape[0] == "E":
+		t.Counts["cases_caught_error"]++
+	default:
+		t.Counts["cases_with_values"]++
+	}
+	if !raised {
+		// non-trivial: the function accepted the tuple (ran to completion without
+		// raising an error; display-like functions legitimately output nothing)
 		var sb strings.Builder
 		sb.WriteString(c.f.Key.String())
 		for _, i := range tp {
@@ -599,19 +666,15 @@ func (w *worker) onResult(c *chunk, tp []int, v any) {
 		sb.WriteString("=>")
 		sb.WriteString(sh)
 		t.nontrivial(sb.String())
-		t.Counts["cases_with_values"]++
-		if len(t.Samples) < 3 && c.f.Key.Arity > 0 && (c.seq%7 == 0) {
+		if len(shape) > 0 && c.f.Kind != "format" && c.f.Key.Arity > 0 && len(t.Samples) < 2 && !w.sampled[c.f.Key.String()] && c.seq%5 == 0 {
+			w.sampled[c.f.Key.String()] = true
 			t.Samples = append(t.Samples, map[string]any{"case": caseShort(c.f, c.pool, tp), "result_types": shape})
 		}
-	} else if len(shape) == 0 {
-		t.Counts["cases_empty"]++
-	} else {
-		t.Counts["cases_caught_error"]++
 	}
 }
 
 func (w *worker) onPanic(c *chunk, tp []int, pv any, stack string) {
-	site := core.PanicSite(stack)
+	site := panicSite(stack)
 	cr := mkCase(c.f, c.pool, tp)
 	sig := "panic:" + c.f.Key.String() + ":" + site + ":" + normMsg(core.PanicString(pv))
 	w.mu.Lock()
@@ -642,6 +705,17 @@ func (w *worker) onPanic(c *chunk, tp []int, pv any, stack string) {
 	defer w.mu.Unlock()
 	w.t.Viol = append(w.t.Viol, tviol{sig, what, cr})
 }
+
+// panicSite is core.PanicSite with the root of the tree under test normalised to
+// /repo (core only strips that literal prefix; mutant runs use VERIF_REPO).
+func panicSite(stack string) string {
+	if repoRoot != "" && repoRoot != "/repo" {
+		stack = strings.ReplaceAll(stack, strings.TrimSuffix(repoRoot, "/")+"/", "/repo/")
+	}
+	return core.PanicSite(stack)
+}
+
+var repoRoot string
 
 // normMsg makes a panic message usable as part of a signature: numbers are
 // replaced (index values, lengths, addresses) and the text is cut.
